@@ -46,7 +46,9 @@ def _run(op, m, target_last=True):
 def _mk(shape, cards, code):
     n = R.n_features(shape)
     trees = CTC_SETS[code] if n >= 2 else []
-    return R.build(shape, cards, abstract=[i % 2 == 1 for i in range(n)], ctcs=[R.ctc('c%d' % i, t) for i, t in enumerate(trees)])
+    # names (and constraint names) not in sorted order: an operation that sorts one of the model's own lists in place shows in the snapshot
+    names = ['F0', 'F1'] + ['F%d' % (n + 1 - i) for i in range(2, n)]
+    return R.build(shape, cards, names=names[:n], abstract=[i % 2 == 1 for i in range(n)], ctcs=[R.ctc('c%d' % (len(trees) - i), t) for i, t in enumerate(trees)])
 
 
 def pure_and_history_free(opi, shape, cards, shape2, cards2, shape3=None, cards3=None) -> bool:
@@ -157,7 +159,7 @@ def batch_history(max_n, seed, count):
 # -- purity on constraint-tree families ----------------------------------------------------------------
 
 CT_SHAPE = (((), (), ()), ((),))
-CT_NAMES = ['Root', 'A', 'B', 'C', 'D']
+CT_NAMES = ['Root', 'D', 'B', 'A', 'C']      # children of the group are not in name order
 
 
 def replay_ctc_pure(tree):
